@@ -64,7 +64,7 @@ Output file is an unaligned set of sequences in fasta.
 			io.LogError(err)
 			return
 		}
-		defer utils.CloseWriteFile(codonf, phaseAAOutput)
+		defer utils.CloseWriteFile(codonf, phaseCodonOutput)
 
 		if aaf, err = utils.OpenWriteFile(phaseAAOutput); err != nil {
 			io.LogError(err)
